@@ -62,8 +62,10 @@ RULES = {
             "register guard, or the emptiness test of the deferral buffer",
     "DELEG": "hash_wset / hash_weigthed_idxmap / hash_weigthed_hashmap of ProbMinHash2/3 call hash_item exactly once per "
              "element with the element's key and weight unchanged and have no other effect on self",
-    "CLONE": "the IndexMap and HashMap entry points of 3a (and of 3aSha) have identical normal forms (entry-point independence); "
-             "agreement of 3a with 3aSha outside the seeding block is recorded as information only",
+    "CLONE": "the IndexMap and HashMap entry points of 3a (and of 3aSha) are each judged by every rule above on their own (that is "
+             "what decides entry-point independence); their normal forms are also compared — identical today — and a textual "
+             "difference is reported as a violation only together with another finding in one of the two, as information otherwise "
+             "(a one-sided behaviour-preserving rewrite differs too); agreement of 3a with 3aSha is information only",
     "BAND": "the band (unit interval) counter visits band 1 first and advances by one in ProbMinHash3 (i from 1, band i) and in "
             "3a/3aSha (pass counter from 2, band i-1) alike, and 3a's keep filters test the lower end of the next band",
     "COMPACT": "the deferral buffer of 3a/3aSha is compacted in place: kept items are written at a position that starts at 0 in every "
@@ -494,16 +496,27 @@ def _band_rule(ctx, facts, fid):
     # keep filters of the two-pass variants: `winv < qmax` after the first point, `winv * i < qmax` in pass i
     t = tree_of(fn)
     keeps = []
+    def in_pass_loop(x):
+        """inside the loop that runs while the deferral buffer is not empty (the second and later passes)"""
+        for lp in t.enclosing_loops(x):
+            for (kind_, nd_) in loop_exits(fn, lp):
+                if kind_ == "guard" and any(c_ == ("truth", "self.to_be_processed.is_empty()", True) for c_ in nf.all_conditions(t, nd_, stop=lp)):
+                    return True
+        return False
+    second = {}
     for n_ in user_nodes(fn):
         if n_["k"] == "MethodCall" and n_["name"] == "push" and nf.nf(n_["recv"]) == "self.to_be_processed":
             keeps.append((n_, c0 - 1))      # after the first pass the next band is band(c0)
+            second[id(n_)] = in_pass_loop(n_)   # survivors pushed back into a buffer taken out with mem::take
         elif n_["k"] == "Assign" and slicer.base_place(n_["l"])[:2] == ("self", "to_be_processed"):
             keeps.append((n_, None))
+            second[id(n_)] = True
     for (kn, _x) in keeps:
         conds = nf.all_conditions(t, kn, stop=t.enclosing_loops(kn)[0] if t.enclosing_loops(kn) else None)
         inner = conds[0] if conds else None
         ok = False
-        nxt = 1 if kn["k"] == "MethodCall" else 1 + b      # index of the next band, as an offset to the counter (push: absolute)
+        first_pass = not second.get(id(kn), False)
+        nxt = 1 if first_pass else 1 + b      # index of the next band, as an offset to the counter (first pass: absolute)
         if inner and inner[0] == "cmp" and inner[2] in ("<", "<="):
             # find the comparison node again to evaluate its left side symbolically
             lhs_aff = None
@@ -521,7 +534,7 @@ def _band_rule(ctx, facts, fid):
                         break
             if lhs_aff is not None:
                 ca, cb = lhs_aff
-                if kn["k"] == "MethodCall":
+                if first_pass:
                     ok = ca == 0 and cb <= nxt          # c*winv with c <= 1: never drops an item whose next band may matter
                 else:
                     ok = ca == 1 and cb <= nxt          # (i + off)*winv with off <= offset of the next band
@@ -610,6 +623,7 @@ def run(ctx, facts):
     # 5 DELEG, CLONE
     for (fid, item) in DELEG_FNS:
         _deleg(ctx, facts, fid, item)
+    clone_diffs = []
     pairs = [(P3A + "hash_weigthed_idxmap", P3A + "hash_weigthed_hashmap"), (SHA + "hash_weigthed_idxmap", SHA + "hash_weigthed_hashmap")]
     from ..rulelib import resolver_of as _ro
     for (a, b) in pairs:
@@ -620,8 +634,7 @@ def run(ctx, facts):
             ctx.ok("CLONE", a, "normal form identical to %s (%d chars)" % (short(b), len(na)), hirq.loc(facts.fn(a)))
         else:
             i = next((i for i in range(min(len(na), len(nb))) if na[i] != nb[i]), min(len(na), len(nb)))
-            ctx.violation("CLONE", b, "idxmap/hashmap disagree", hirq.loc(facts.fn(b)),
-                          "the two entry points differ: ...%s... vs ...%s..." % (na[max(0, i - 40):i + 60], nb[max(0, i - 40):i + 60]))
+            clone_diffs.append((a, b, "...%s... vs ...%s..." % (na[max(0, i - 40):i + 60], nb[max(0, i - 40):i + 60])))
     ra, ea = _seed_region_removed(facts.fn(P3A + "hash_weigthed_idxmap"))
     rb, eb = _seed_region_removed(facts.fn(SHA + "hash_weigthed_idxmap"))
     if ea or eb:
@@ -655,3 +668,12 @@ def run(ctx, facts):
         else:
             ctx.violation("RESETBEFORE", P2 + "hash_item", "next without reset", hirq.loc(nx),
                           "permut_generator.next() is reachable without a preceding permut_generator.reset() in the same item: slot order would leak between items")
+    # CLONE: the two entry points of one struct differ textually. Each has just been judged on its own by every rule above; a
+    # one-sided behaviour-preserving rewrite (one-shot digest, another way of compacting the buffer) differs here too, so the
+    # difference is a violation only together with another finding in one of the two functions, and information otherwise.
+    for (a_, b_, diff) in clone_diffs:
+        hit = [v for v in ctx.violations if v["fn"] in (a_, b_) and v["rule"] != "CLONE"]
+        if hit:
+            ctx.violation("CLONE", b_, "idxmap/hashmap disagree", hirq.loc(facts.fn(b_)), "the two entry points differ (and one of them violates %s): %s" % (hit[0]["rule"], diff))
+        else:
+            ctx.info("the entry points %s and %s differ textually while each satisfies every structural rule on its own: %s" % (short(a_), short(b_), diff[:160]))
